@@ -234,8 +234,8 @@ func main() {
 	if conf.Server.NtlmEnabled() {
 		log.Printf("enabling NTLM authentication")
 		ntlm := web.NTLMAuthHandler{SocketAddress: conf.Server.AuthSocket, Timeout: conf.Server.BasicAuthTimeout}
-		rdp.NewRoute().HeadersRegexp("Authorization", "NTLM").HandlerFunc(ntlm.NTLMAuth(gw.HandleGatewayProtocol))
-		rdp.NewRoute().HeadersRegexp("Authorization", "Negotiate").HandlerFunc(ntlm.NTLMAuth(gw.HandleGatewayProtocol))
+		rdp.NewRoute().HeadersRegexp("Authorization", "^NTLM ").HandlerFunc(ntlm.NTLMAuth(gw.HandleGatewayProtocol))
+		rdp.NewRoute().HeadersRegexp("Authorization", "^Negotiate ").HandlerFunc(ntlm.NTLMAuth(gw.HandleGatewayProtocol))
 		auth.Register(`NTLM`)
 		auth.Register(`Negotiate`)
         }
@@ -244,7 +244,7 @@ func main() {
 	if conf.Server.BasicAuthEnabled() {
 		log.Printf("enabling basic authentication")
 		q := web.BasicAuthHandler{SocketAddress: conf.Server.AuthSocket, Timeout: conf.Server.BasicAuthTimeout}
-		rdp.NewRoute().HeadersRegexp("Authorization", "Basic").HandlerFunc(q.BasicAuth(gw.HandleGatewayProtocol))
+		rdp.NewRoute().HeadersRegexp("Authorization", "^Basic ").HandlerFunc(q.BasicAuth(gw.HandleGatewayProtocol))
 		auth.Register(`Basic realm="restricted", charset="UTF-8"`)
 	}
 
@@ -255,7 +255,7 @@ func main() {
 		if err != nil {
 			log.Fatalf("Cannot load keytab: %s", err)
 		}
-		rdp.NewRoute().HeadersRegexp("Authorization", "Negotiate").Handler(web.RecoverAuthentication(
+		rdp.NewRoute().HeadersRegexp("Authorization", "^Negotiate ").Handler(web.RecoverAuthentication(
 			spnego.SPNEGOKRB5Authenticate(web.TransposeSPNEGOContext(http.HandlerFunc(gw.HandleGatewayProtocol)),
 				keytab,
 				service.Logger(log.Default())), "Negotiate"))
